@@ -858,7 +858,9 @@ def main():
             'include_hash': include_hash(),
             'build_s': round(t_built - t_start, 2),
         },
-        'assumptions': [
+        'assumptions': ([
+            'C09: "every arity 0..15 and every passing mode" is a family of programs: it is covered by instantiation (operation wide: 16 arities with the passing mode rotating over the positions, three const variants, one mock_interface class), not by search; what the simulator searches is the order of create / mutate / move / call operations and the re-entrant operations and faults inside clauses',
+        ] if prop == 'C09' else []) + [
             'the reference model (sim/model.hpp, DESIGN.md Appendix A) states the property correctly',
             'caller obligations are respected by the generator (no destruction of an executing expectation, nested tracer lifetimes, no mutation from WITH)',
             'sampling, not proof: a clean batch is evidence only',
